@@ -51,6 +51,7 @@ impl Prop for C01 {
                     6 => gen::text_with(look.clone(), 10),
                     2 => ascii_text(look.clone()),
                     1 => gen::text(12),
+                    1 => gen::text_with(look.clone(), 60),
                 ];
                 (kind, text, any::<bool>()).prop_map(move |(kind, text, ignore_special)| Case {
                     kind,
